@@ -177,6 +177,31 @@ full --, proved to be what it should be in Lemmas/KernelsAgree/IterVocab.lean; o
           of an enum in scope through `use Enum::*;`, type aliases as struct literal names, `itertools::Either` (transparent),
           `std::iter::{empty, once}`, barter-integration's `OneOrMany` / `NoneOneOrMany` as fixed vocabulary, item options `as`
           (a struct translated again in full under another name) and kind `abstract` (an untranslated type as a type parameter)
+Round 7 (constructs met in harmless refactorings; each accepts source that was rejected before, so the generated files
+of the unchanged tree stay byte-identical; all groups)
+  `std::mem::replace(&mut <place>, e)` (also `mem::replace`, `core::mem::replace`) as a whole initialiser / statement / tail /
+          scrutinee, the place a field path of a mutable variable: MEANING `let new = e; let old = <place>; <place> = new;`
+          with value `old` (rustc rejects an `e` that reads the mutably borrowed place, so the order of the two readings is
+          not observable); the write-back rules of `&mut` aliases apply as for `place.replace(e)`
+  a GENERIC helper with ONE `&mut` parameter, `fn f<T: Bound>(x: &mut C<T>, ..) -> R` (no receiver): state passing like the
+          non-generic case; the type parameters are what the `&mut` place and the other arguments determine (all of them must
+          be determined); an ordering parameter `Ord_T` that a `sort()` inside the helper takes (`T: Ord` is NOT translated,
+          see `sorting`) is instantiated at each call with the caller's ordering parameter `Ord_<the type T stands for>`:
+          `T: Ord` resolves to the `Ord` impl of the actual type, as in Rust
+  an ORDERED `match` (tuple scrutinee / or-patterns / guards, binder-free patterns) WITHOUT a final `_` arm whose last arm is
+          unguarded: accepted when the UNGUARDED arms cover every value of the scrutinee's type -- decided by the usefulness
+          check (Maranget) on fully translated enums / bool / Option / tuples of these; guarded arms do not count, as in rustc.
+          MEANING: the same if-chain, the last arm's test dropped (a value that reaches it matches no earlier unguarded arm,
+          hence, by coverage, the last one).  `(Buy, Buy) | (Sell, Sell) => a, (Buy, Sell) | (Sell, Buy) => b` is `if .. then
+          a else b`
+  `match a.cmp(&b) { Ordering::Less => .., Ordering::Equal => .., Ordering::Greater => .. }` on `Decimal` (arms in any order): a
+          Lean `match` on `Decimal.cmp a b` (PRELUDE: `Less` iff `a < b`, `Equal` iff `a = b`, `Greater` otherwise;
+          trichotomy law `Lemmas/KernelsAgree/PositionSM.lean :: decimal_cmp_spec`)
+  `let Self { a, b, .. } = self;` / `let S { a, b, .. } = &x.f;`: an irrefutable struct pattern (`Self` = the struct of the impl);
+          binders of a pattern on a reference are the field values (`&T` is `T`, `*a` is `a`)
+  a closure with a block body that is not a plain `let x = e; .. e` sequence (a pattern `let`, early exits) where the context
+          does not say its result type (`find_map(|x| { let S { a, b } = &x.v; if c { Some(k) } else { None } })`): the result
+          type is what the returned values say (all must agree); rejected if they leave it open
 Everything else is REJECTED: exit status 1 and a message naming the function and the construct (loops,
 closures, iterators, `&mut` borrows and `&mut`-returning accessors, indexing, string / float literals, other
 macros, other methods, maps, trait objects, lifetimes, `..` struct update, `as` casts other than u64 -> i64,
@@ -3022,6 +3047,9 @@ class Compiler:
                     raise Reject(f"call of `{fn.lean}`, whose conversion parameter `{x}` this call does not determine")
                 parts.append(conv[x])
                 continue
+            if conv and x in conv and x.startswith("Ord_") and x not in self.w.tvar_ops:
+                parts.append(conv[x])        # the ordering of a type parameter of the callee, at this call's type (ord_convs)
+                continue
             if x in self.w.tvar_ops and conv and x in conv:
                 self.need_extern(x)          # the caller's own parameter of that name: the callee's type parameter IS the caller's
                 parts.append(conv[x])
@@ -3977,8 +4005,8 @@ class Compiler:
         """a closure whose body is a block with early exits (`let x = e?;`, `let .. else { return None; }`, `return ..`): compiled
         like a function body whose result type is the closure's; the enclosing function's state cannot be changed (every
         variable of the enclosing scope is read-only inside)"""
-        if expect is None or expect == HOLE:
-            raise Reject("closure with early exits (`?` / `return`) whose result type is not determined by its context")
+        if expect is None:
+            expect = HOLE          # nothing known from the context: the values the body returns say what the result type is
         sub = Compiler(self.w, self.self_ty, "none", expect, self.used, self.tr)
         sub.used = self.used
         sub.globs, sub.into_bounds, sub.from_bounds, sub.bounds, sub.externs = self.globs, self.into_bounds, self.from_bounds, self.bounds, self.externs
@@ -4209,6 +4237,19 @@ class Compiler:
                 return V(f"(Rust.{'OneOrMany' if tgt[0] == 'oom' else 'NoneOneOrMany'}.from_iter {atom(r.text)})", (tgt[0], u))
             raise Reject(f"`.collect()` into {ty_rust(tgt)} (only `Vec`, `IndexMap`, `HashMap`, `NoneOneOrMany`)")
         raise Reject(f"iterator method `.{name}(..)` (not in the vocabulary of PRELUDE4)")
+
+    def ord_convs(self, fn, m):
+        """the ordering parameters `Ord_<type with the callee's type parameters>` of a generic callee, each mapped to the
+        caller's ordering parameter of that type at the call's type arguments m (`T: Ord` resolves to the `Ord` impl of what `T`
+        stands for); None if the callee has none"""
+        out = {}
+        for x in fn.externs:
+            if x.startswith("Ord_") and x in self.w.externs and any(v in m for v in tvars_of(self.w.externs[x][0][0])):
+                t = subst(self.w.externs[x][0][0], m)
+                if has_hole(t):
+                    raise Reject(f"call of `{fn.lean}`: the element type of its ordering parameter `{x}` is not determined")
+                out[x] = self.ord_param(t)
+        return out or None
 
     def ord_param(self, t):
         """(fourth file) `a <= b` of the `Ord` impl of the element type of a sorted `Vec`: NOT translated (a `#[derive(Ord)]` /
@@ -4442,6 +4483,8 @@ class Compiler:
     # ---- patterns
     def irrefutable(self, p):
         def is_struct(n):
+            if n == "Self":            # `let Self { a, b, .. } = self;` inside an impl of a translated struct
+                return bool(self.self_ty) and self.self_ty[0] == "struct"
             return self.w.rn(n) in self.w.structs or self.w.alias_base(n) in self.w.structs
         return p[0] in ("pbind", "pwild") or (p[0] == "ptuple" and all(self.irrefutable(q) for q in p[1])) or \
             (p[0] == "pctor" and len(p[1]) == 1 and is_struct(p[1][0]) and all(self.irrefutable(q) for q in p[2])) or \
@@ -4958,12 +5001,27 @@ class Compiler:
                 g = self.prop(self.cx(guard, env_arm, ind + 1))
                 c = g if c is None else f"({c} ∧ {g})"
             out.append((c, body, env_arm))
+        if out[-1][0] is not None and e[2][-1][1] is None and not has_hole(s.ty) and self.chain_exhaustive(e, s.ty):
+            # no `_` arm, but the UNGUARDED arms cover every value of the scrutinee's type (decided by the usefulness check
+            # on binder-free patterns over fully translated enums / bool / Option / tuples of these): a value that reaches
+            # the last arm matches no earlier unguarded arm, hence matches the last one -- its test is dropped
+            out[-1] = (None, out[-1][1], out[-1][2])
         if out[-1][0] is not None:
             raise Reject("a `match` with guards / or-patterns / a tuple scrutinee must end in an unguarded `_` arm "
-                         "(exhaustiveness is not decided by the translator)")
+                         "or its unguarded binder-free arms must cover the scrutinee's type")
         if any(c is None for c, _, _ in out[:-1]):
             raise Reject("unreachable arms after an unconditional arm")
         return out
+
+    def chain_exhaustive(self, e, ty):
+        """do the unguarded arms of the if-chain `match` e (binder-free patterns) cover every value of type ty?"""
+        try:
+            self.total_enums(ty)
+            rows = [[self.npat(q, ty)] for pats, guard, _ in e[2] if guard is None
+                    for p in pats if p[0] != "pbind" for q in self.expand_or(p)]
+            return not self.useful(rows, [("w",)], [ty])
+        except (Reject, KeyError, TypeError):
+            return False
 
     def arms_of(self, e, s, env):
         """checks exhaustiveness (syntactically, strictly) and returns
@@ -5100,6 +5158,13 @@ class Compiler:
 
     def effect(self, e, env):
         """is `e` a state-changing head: a `&mut self` method call on an assignable place / `.take()` on one"""
+        if e[0] == "call" and e[1] in (["std", "mem", "replace"], ["mem", "replace"], ["core", "mem", "replace"]) and len(e[2]) == 2 \
+                and e[2][0][0] == "mutref":
+            # `std::mem::replace(&mut <place>, e)`: the old content of the place is the value, `e` its new content
+            lv = self.lvalue(e[2][0][1], env)
+            if not lv or not env[lv[0]].mut:
+                raise Reject("`mem::replace` whose `&mut` argument is not a field path of a mutable variable")
+            return ("mem_replace", lv, self.place(lv[0], lv[1], env))
         if e[0] == "call":
             fn = self.resolve_call(e[1])
             if fn is None or fn.mutparam is None or len(e[2]) != len(fn.params):
@@ -5157,8 +5222,33 @@ class Compiler:
         if eff and eff[0] == "pcall":
             _, (root, fields), pl, fn = eff
             shown = "::".join(e[1])
-            if fn.mode != "none" or fn.tvars:
-                raise Reject(f"call of `{shown}`, which has a `&mut` parameter and a receiver / type parameters")
+            if fn.mode != "none":
+                raise Reject(f"call of `{shown}`, which has a `&mut` parameter and a receiver")
+            convs = None
+            if fn.tvars:
+                # a GENERIC helper `fn f<T: Bound>(x: &mut C<T>, ..)`: its type parameters are what the `&mut` place and the
+                # other arguments say (they must be determined completely); the ordering `Ord_T` that a `sort()` inside it
+                # takes is the ordering parameter of the type `T` stands for at this call (`ord_convs`)
+                if has_hole(pl.ty):
+                    raise Reject(f"`&mut` argument of generic `{shown}` of undetermined type")
+                ren = {v: ("tvar", "'" + v) for v in fn.tvars}
+                m = {}
+                if not match_ty(subst(fn.params[fn.mutparam][1], ren), pl.ty, m):
+                    raise Reject(f"`&mut` argument of `{shown}` of type {ty_rust(pl.ty)} does not fit its generic signature")
+                others = {}
+                for j, (a, (_, t)) in enumerate(zip(e[2], fn.params)):
+                    if j != fn.mutparam:
+                        others[j] = self.cx(a, env, ind)
+                        if not match_ty(subst(t, ren), others[j].ty, m):
+                            raise Reject(f"call of `{shown}`: argument types do not fit its generic signature")
+                back = {"'" + v: m.get("'" + v, HOLE) for v in fn.tvars}
+                if any(has_hole(t) for t in back.values()):
+                    raise Reject(f"call of generic `{shown}`: its type parameters are not determined by the arguments")
+                convs = self.ord_convs(fn, {v: back["'" + v] for v in fn.tvars})
+                fn0 = fn
+                fn = Fn(fn.lean, fn.mode, fn.self_ty, [(n, subst(subst(t, ren), back)) for n, t in fn.params],
+                        subst(subst(fn.ret, ren), back), (), fn.externs)
+                fn.mutparam = fn0.mutparam
             vs = []
             for j, (a, (_, t)) in enumerate(zip(e[2], fn.params)):
                 if j == fn.mutparam:
@@ -5167,7 +5257,7 @@ class Compiler:
                     vs.append(pl.text)
                 else:
                     vs.append(self.val(self.cx(a, env, ind, t)))
-            call = " ".join([self.fname(fn)] + [atom(v) for v in vs])
+            call = " ".join([self.fname(fn, convs)] + [atom(v) for v in vs])
             if fn.ret == UNIT:
                 return ([f"{pad}let {env[root].lean} : {ty_lean(env[root].ty)} := {self.set_place(root, fields, env, '(' + call + ')')}"]
                         + self.writeback(root, env, pad)), self.fit(V("()", UNIT), expect)
@@ -5224,6 +5314,18 @@ class Compiler:
             t = self.fresh("taken")
             lines = [f"{pad}let {t} : {ty_lean(pl.ty)} := {pl.text}",
                      f"{pad}let {env[root].lean} : {ty_lean(env[root].ty)} := {self.set_place(root, fields, env, 'none')}"]
+            return lines + self.writeback(root, env, pad), self.fit(V(t, pl.ty), expect)
+        if eff and eff[0] == "mem_replace":
+            # the new content is computed first (rustc rejects an argument that reads the mutably borrowed place, so the order
+            # of the two readings is not observable), then the old content is taken out and the place overwritten
+            _, (root, fields), pl = eff
+            if has_hole(pl.ty):
+                raise Reject("`mem::replace` on a place of undetermined type")
+            x = self.cx(e[2][1], env, ind, pl.ty)
+            t, nw = self.fresh("_replaced"), self.fresh("_new")
+            lines = [f"{pad}let {nw} : {ty_lean(pl.ty)} := {self.val(x)}",
+                     f"{pad}let {t} : {ty_lean(pl.ty)} := {pl.text}",
+                     f"{pad}let {env[root].lean} : {ty_lean(env[root].ty)} := {self.set_place(root, fields, env, nw)}"]
             return lines + self.writeback(root, env, pad), self.fit(V(t, pl.ty), expect)
         if eff and eff[0] == "replace":
             _, (root, fields), pl = eff
